@@ -34,3 +34,10 @@ Proof. vm_compute. reflexivity. Qed.
 Example refuted_path_collision :
   has_dup (emitted_type_names (mk [MMethod [77] [] [([97; 95; 98], TStruct [([120], TInt)]); ([97], TStruct [([98], TStruct [([121], TInt)])])] []])) = true.
 Proof. vm_compute. reflexivity. Qed.
+
+(* a declared error whose reply method would be named like a CallTrait method the emitted code calls *)
+Example refuted_error_name_clash :
+  has_shadowing_error (mk [MMethod [77] [] [] []; MError [73;110;118;97;108;105;100;80;97;114;97;109;101;116;101;114] [] [([120], TInt)]]) = true
+  /\ has_shadowing_error (mk [MMethod [77] [] [] []; MError [83;101;108;102] [] []]) = true
+  /\ has_shadowing_error (mk [MMethod [77] [] [] []; MError [73;110;116;101;114;102;97;99;101;78;111;116;70;111;117;110;100] [] []]) = false.
+Proof. vm_compute. repeat split; reflexivity. Qed.
